@@ -225,6 +225,15 @@ def IdsFresh (L : Levels) (nextId : Nat) : Prop :=
 sequence number ranges are disjoint and increasing), and what makes `OrderOldToNew` the insertion order there -/
 def L0AgeOrdered (L : Levels) : Prop := (L.headD []).Pairwise (fun a b => age a < age b)
 
+/-- the per-source form: two level-0 tables **that share a key** are age-ordered in insertion order. This is what a
+level 0 loaded from several checkpoints still satisfies (`recovery.LoadCheckpointList` appends the handles' level-0
+lists; sources own disjoint key groups; sequence numbers of different sources are unrelated). -/
+def L0KeyAgeOrdered (L : Levels) : Prop :=
+  (L.headD []).Pairwise (fun a b => ¬ DisjointKeys a.run b.run → age a < age b)
+
+instance (L : Levels) : Decidable (L0AgeOrdered L) := by unfold L0AgeOrdered; infer_instance
+instance (L : Levels) : Decidable (L0KeyAgeOrdered L) := by unfold L0KeyAgeOrdered; infer_instance
+
 /-! ## Compaction next to flushes -/
 
 structure Sys where
